@@ -15,6 +15,7 @@ Functions:
 
 from __future__ import annotations
 
+import copy
 from collections.abc import Callable
 from dataclasses import dataclass
 from functools import partial
@@ -69,6 +70,10 @@ def _update_parameters_and_initial_conditions[T](
 
     """
     pd = pars.to_dict()
+    # Every row works on its own copy: results keep a reference to their model and
+    # evaluate fluxes lazily, so sharing one model between rows (sequential mode)
+    # would make earlier rows see the values of later ones
+    model = copy.deepcopy(model)
     model.update_variables({k: v for k, v in pd.items() if k in model._variables})  # noqa: SLF001
     model.update_parameters({k: v for k, v in pd.items() if k in model._parameters})  # noqa: SLF001
     return fn(model)
